@@ -8,8 +8,8 @@ NA_FINAL = {
 }
 PENDING = {}
 CLAIMS = {
- 'C01': ('structural core at L1: the symmetry predicate that routes the solvers answers per its definition; slice- and Matrix-level pivoted LU keep the pivots a permutation, choose a column-maximal pivot and bound every multiplier by 1 (the facts the stability of the solve rests on)',
-         'residual bounds (backward error analysis of floating-point elimination) are not expressible at L0/L1 and are NOT claimed; Cholesky route, triangular solves and the multi-RHS layout are not yet under contract; is_square (f32 sqrt) is an assumed contract'),
+ 'C01': ('L1 (exact over the reals): the symmetry and positive-definiteness tests that route the solvers answer per their definitions; solve takes the Cholesky route exactly when the test passes and no pivot is non-positive and then satisfies L L^T = A, L y = b, L^T x = y row by row, otherwise the pivoted-LU solve equations (unit-lower y = P b, U x = y); solve_sys solves column by column through the row/column-major round trip, invert_matrix is solve_sys on the identity; shape mismatches rejected',
+         'residual bounds in floating point (backward error analysis) are not expressible at L0/L1 and are NOT claimed; the LU route rests on the structural LU contract (permutation, bounded multipliers) - P A = L U of the in-place loop is not proved; the Matrix-level wrappers (Matrix::solve, inv) are replay-only; is_square (f32 sqrt) is an assumed contract'),
  'C02': ('L1 (machine arithmetic treated as mathematical): pdf/pmf/mean/var of 13 univariate laws equal the textbook formulas over the reals, with support clauses (0 outside, no panic); the multivariate normal pdf / ln_pdf equal exp(-q/2)/sqrt((2 pi)^k det) resp. its logarithm with q the quadratic form through the product contracts; Gamma/Beta functions abstract',
          'total mass 1 and moment integrals are not expressible (n/a); MVN::new (Cholesky/inverse/determinant of the covariance) is a hypothesis (object invariant), not under contract; no rounding/overflow/NaN at L1'),
  'C04': ('L0 (float operations are total deterministic functions): 53 loop-unrolled kernels, 75 Vector and 63 Matrix operator impls / maps and both negations proved for every length and operand form, mismatches rejected two-sidedly; dot, norm and sum equal their definitions over the reals (L1)',
@@ -26,12 +26,12 @@ CLAIMS = {
          'invert_matrix is assumed (inv_fn); predict (iterator adapters) and conditioning are not under contract'),
  'C08': ('L1: Welford aggregate invariant through every step (division-free), mean / welford_mean / population and sample variance / standard deviations and the two-pass covariances equal their textbook definitions over the reals; min / max return an attained bound and argmin / argmax the first index attaining it for every finite data set (folds verified as their defining loops); polynomial side lemmas by z3+cvc5 (QF_NRA)',
          'rounding-error and large-offset stability claims are n/a; hist_bin_centers (iterator adapters), one-pass and online covariance are not under contract (replay battery only)'),
- 'C11': ('L1 structure of pivoted LU at slice and Matrix level: pivots stay a permutation, the pivot row maximises |.| in its column, every multiplier is bounded by 1',
-         'P*A = L*U, the Cholesky equations, determinant and triangular solves are not yet under contract (replay battery only)'),
- 'C13': ('L1: autocovariance and autocorrelation equal their biased-estimator definitions for every series and lag (acf = acovf(k)/acovf(0)), differencing element-wise',
-         '|acf| <= 1, AR::fit (Yule-Walker composition) and AR::predict are not yet under contract (replay battery only); asymptotic convergence of forecasts is n/a'),
- 'C15': ('integer + L0 data-flow: Matrix::new / reshape / reshape_mut / Index / IndexMut / constructors / transpose / t / t_mut / hcat / flat and column access / diag / eye keep rows*cols == len and the row-major view; impossible shapes rejected two-sidedly',
-         'vcat, hrepeat, vrepeat, apply_along_row/col, get_row_as_vector, toeplitz, vandermonde, design, arange, linspace, rotations and the approximate-equality predicates are not yet under contract (replay battery only); machine-integer range preconditions (len <= i32::MAX)'),
+ 'C11': ('L1: Cholesky-Banachiewicz returns a lower-triangular factor with positive diagonal satisfying L L^T = A entry by entry, None only at a non-positive pivot of a valid partial factorisation; cholesky rejects asymmetric input and non-positive pivots; forward / backward substitution and cholesky_solve satisfy the triangular equations row by row; pivoted LU at slice and Matrix level keeps the pivots a permutation, picks a column-maximal pivot and bounds every multiplier by 1; lu_solve solves (unit lower) y = P b, U x = y',
+         'P A = L U for the in-place pivoted loop, the determinant / permutation parity and the Matrix-level Cholesky and substitution wrappers are not under contract (replay battery only)'),
+ 'C13': ('L1: autocovariance and autocorrelation equal their biased-estimator definitions for every series and lag (acf = acovf(k)/acovf(0)), differencing element-wise; AR::fit is the Yule-Walker composition (mean, centring, autocorrelations 0..p, Toeplitz system through invert_matrix and a matrix-vector product, reversed storage) depending on the data only; AR::predict runs the forecasting recursion on the centred history and adds the intercept back',
+         '|acf| <= 1 and asymptotic convergence of forecasts are not decided by contracts'),
+ 'C15': ('integer + L0/L1 data-flow: Matrix::new / reshape / reshape_mut / Index / IndexMut / constructors / transpose / t / t_mut / hcat / vcat / vrepeat / flat and column access / diag / eye / row<->column-major conversion keep rows*cols == len and the row-major view; impossible shapes rejected two-sidedly; toeplitz, design, diag_matrix, arange, linspace deliver their defining pattern with the documented end-point convention; is_upper/lower_triangular and is_design answer per their definitions',
+         'hrepeat, apply_along_row/col, get_row_as_vector, rotations and the approximate-equality predicates are not under contract (replay battery only); Vector::extend and slice::repeat are assumed contracts; machine-integer range preconditions (len <= i32::MAX)'),
  'C16': ('L1: for every target the returned value is the chord through the bracketing knots inside the range (hence the ordinate at a knot), the fill value / extrapolated first or last segment / a rejection outside it according to the mode; the checked variant rejects unsorted or mismatched input',
          'strictly increasing abscissae and at least two knots are hypotheses of the property; L1 comparisons (no NaN)'),
  'C17': ('L1: logistic, logit and both Box-Cox transforms equal their defining formulas over the reals with domains rejected two-sidedly; range (0,1) and monotonicity of the logistic as lemmas; binom_coeff returns exactly C(n,k) (Pascal-rule definition, unbounded integers) for every 0 <= k <= n whose value fits in 64 bits, with no intermediate overflow; symmetry and the absorption identities as lemmas',
